@@ -169,6 +169,7 @@ def units(tier, seed=0):
             tracked = any(q.elem in 'tm' for q in L.params)
             ulist = elem.ELEM_UNITS + (elem.ELEM_CMP_UNITS if all(q.elem in 'ux' for q in L.params) else [])
             for name, h, key, props in ulist:
+                if name.endswith('.grows') and not L.is_varying(): continue   # lists without VaryingSize take another branch of move_assign
                 us.append(dict(id='elem.%s.F%d.%s' % (L.tag, f, name), tu='elem_%s_F%d' % (L.tag, f), gen=cxx, template_text=txt, vars={}, entry=h,
                                enforce='@F{%s}' % elem.RXE[key], replace=[], props=props, layer='element.hpp',
                                kind='bounded(span items <= 2, block <= 16 storage units, loops unwound)', unwind=24,
